@@ -589,7 +589,13 @@ int main(int argc, char **argv) {
       int chunk = counting ? atoi(tok[2]) : 0;
       char *text = NULL;
       size_t tl = 0;
-      if (isfile)
+      if (isfile && arg && !strncmp(arg, "hex:", 4)) {
+        /* a path with blanks or other bytes the script format cannot carry */
+        if (unhex(arg + 4, &text, &tl)) {
+          oputs("E hex\n");
+          continue;
+        }
+      } else if (isfile)
         text = strdup(arg);
       else if (unhex(arg ? arg : "-", &text, &tl)) {
         oputs("E hex\n");
